@@ -82,6 +82,19 @@ def gen_c20():
         ctor_range = True
     else:
         raise E.ExtractError(f'FilterMap(trie, items): unrecognised statements after the size test: {rest[:200]!r}')
+    # FasterTrie::insert / erase: is an empty key rejected before `pf.first[0]` is read?
+    ftsrc = E.strip_comments(E.read('src/Factored/Utils/FasterTrie.cpp'))
+    ins_body, ins_ln = body_of(ftsrc, r'size_t\s+FasterTrie::insert\s*\(\s*PartialFactors\s+pf\s*\)\s*\{', 'FasterTrie::insert')
+    fer_body, _ = body_of(ftsrc, r'void\s+FasterTrie::erase\s*\(\s*const\s+size_t\s+id\s*,\s*const\s+PartialFactors\s*&\s*pf\s*\)\s*\{', 'FasterTrie::erase')
+    ib, eb = norm(ins_body), norm(fer_body)
+    ins_guard = re.match(r'\{if\((?:pf\.first\.empty\(\)|!pf\.first\.size\(\)|pf\.first\.size\(\)==0)\)throwstd::invalid_argument\("[^"]*"\);keys_\[pf\.first\[0\]\]', ib) is not None
+    ers_guard = re.match(r'\{if\((?:pf\.first\.empty\(\)|!pf\.first\.size\(\)|pf\.first\.size\(\)==0)\)return;auto&keys=keys_\[pf\.first\[0\]\]', eb) is not None
+    if not ins_guard and not ib.startswith('{keys_[pf.first[0]]'):
+        raise E.ExtractError('FasterTrie::insert: unrecognised statements before the bucket access: ' + ib[:120])
+    if not ers_guard and not eb.startswith('{auto&keys=keys_[pf.first[0]]'):
+        raise E.ExtractError('FasterTrie::erase: unrecognised statements before the bucket access: ' + eb[:120])
+    if ins_guard != ers_guard:
+        raise E.ExtractError('FasterTrie::insert and ::erase disagree on the empty-key guard')
     b = lambda x: 'true' if x else 'false'
     body = f'''/- GENERATED by tools/extract_c20.py from {REL} — do not edit. -/
 namespace AITB.Gen.C20
@@ -95,6 +108,9 @@ def eraseTailGuard : Bool := {b(guard)}
 /-- include/AIToolbox/Factored/Utils/FilterMap.hpp:{ctor_ln} `FilterMap(TrieType, ItemsContainer)`: after the size test, rejects a trie
     holding an id outside the container (true) / size test only (false) -/
 def ctorChecksIdRange : Bool := {b(ctor_range)}
+/-- src/Factored/Utils/FasterTrie.cpp:{ins_ln} `FasterTrie::insert` / `erase`: an empty key is rejected (insert throws `invalid_argument`, erase returns)
+    before `pf.first[0]` is read (true) / `pf.first[0]` is read unconditionally (false: out-of-bounds read on an empty key) -/
+def ftEmptyKeyGuard : Bool := {b(ins_guard)}
 
 end AITB.Gen.C20
 '''
